@@ -1743,4 +1743,5 @@ func checkWarnings(p *Program, r *Report, pk *ssa.Package, runner *ssa.Function)
 	}
 	r.Floor("R17.8", "array parameters of the JSON conversion", nEnc, 1)
 	checkEmptyAxesEncode(p, r)
+	checkRunnerAssertions(p, r)
 }
